@@ -372,6 +372,18 @@ def gen_decks(outdir: str) -> list[str]:
     tmp = {"/ppt/slides/slide%d.xml" % (k + 1): "/ppt/slides/slideTMP%d.xml" % (k + 1) for k in range(3)}
     fin = {"/ppt/slides/slideTMP%d.xml" % (k + 1): "/ppt/slides/slide%d.xml" % nums[k] for k in range(3)}
     members = F.rename_parts(F.rename_parts(members, tmp), fin)
+    # the second notes page as a converter writes it: no placeholder at all, the notes in a plain text box
+    nn = "ppt/notesSlides/notesSlide2.xml"
+    root = etree.fromstring(members[nn])
+    tree = root.find("{%s}cSld/{%s}spTree" % (F.NS_P, F.NS_P))
+    for sp in [el for el in tree if isinstance(el.tag, str) and el.find("*/{%s}nvPr/{%s}ph" % (F.NS_P, F.NS_P)) is not None]:
+        tree.remove(sp)
+    tree.append(etree.fromstring(
+        '<p:sp xmlns:p="%s" xmlns:a="http://schemas.openxmlformats.org/drawingml/2006/main"><p:nvSpPr><p:cNvPr id="77" name="Plain notes"/>'
+        '<p:cNvSpPr txBox="1"/><p:nvPr/></p:nvSpPr><p:spPr><a:xfrm><a:off x="100" y="200"/><a:ext cx="3000000" cy="1000000"/></a:xfrm>'
+        '<a:prstGeom prst="rect"><a:avLst/></a:prstGeom></p:spPr><p:txBody><a:bodyPr/><a:lstStyle/><a:p><a:r><a:t>plain note</a:t></a:r></a:p>'
+        '</p:txBody></p:sp>' % F.NS_P))
+    members[nn] = etree.tostring(root, xml_declaration=True, encoding="UTF-8", standalone=True)
     p = os.path.join(outdir, "gen-permuted-names.pptx")
     with open(p, "wb") as f:
         D.write_zip(members, f)
